@@ -136,6 +136,39 @@ def run(ctx, rep):
     except Exception as e:
         rep.ob("modrm-rewrite", "MovIndirectToLea:interp", False, str(e))
 
+    # ---- TLSDESC register-preserving rewrites -------------------------------------------------------------------
+    rep.rule("tlsdesc-register", "TLSDESC -> LE/IE rewrites keep the destination register: `mov $imm,%reg` carries it in ModRM.rm + REX.B, `mov x@gottpoff(%rip),%reg` in ModRM.reg + REX.R; REX.W set, other prefix bits clear, immediate zeroed, nothing else touched")
+    for (var, args), spec in O.REGFORMS.items():
+        tag = var + (f"({args[0]})" if args else "")
+        try:
+            cells, off, add = run_apply(F, FD, var, args)
+        except Exception as e:
+            rep.ob("tlsdesc-register", f"{tag}:interp", False, f"arm could not be interpreted: {type(e).__name__}: {e}")
+            continue
+        old_rex, old_modrm = (OFF - 3) * 8, (OFF - 1) * 8
+
+        def want_bits(pattern):
+            out = []
+            ri = 0
+            for ch in pattern:           # MSB first
+                if ch in "01":
+                    out.append(("c", int(ch)))
+                elif ch == "R":
+                    out.append(("a", ("old", old_rex + 2)))
+                elif ch == "r":
+                    out.append(("a", ("old", old_modrm + 5 - ri)))
+                    ri += 1
+            return list(reversed(out))   # LSB first, like byte()
+        r = byte(cells, OFF - 3)
+        rep.ob("tlsdesc-register", f"{tag}:rex", r == want_bits(spec["rex"]), f"REX byte {[fmt_cell(b) for b in reversed(r)]} vs {spec['rex']} (R = old REX.R: the destination's high bit must stay with the field that holds the destination)")
+        rep.ob("tlsdesc-register", f"{tag}:opcode", const_byte(byte(cells, OFF - 2)) == spec["opcode"], f"opcode {const_byte(byte(cells, OFF - 2))!r} vs {spec['opcode']:#x}")
+        m = byte(cells, OFF - 1)
+        rep.ob("tlsdesc-register", f"{tag}:modrm", m == want_bits(spec["modrm"]), f"ModRM {[fmt_cell(b) for b in reversed(m)]} vs {spec['modrm']} (r = old reg field)")
+        rep.ob("tlsdesc-register", f"{tag}:imm", all(const_byte(byte(cells, OFF + i)) == 0 for i in range(4)), "the 4 immediate/displacement bytes are zeroed before the relocation is applied")
+        rep.ob("tlsdesc-register", f"{tag}:addend", add == spec["addend"] and off == OFF, f"addend {add} (want {spec['addend']}), offset delta {off - OFF}")
+        stray = [i for i in range(40) if not (OFF - 3 <= i < OFF + 4) and byte(cells, i) != [("a", ("old", i * 8 + j)) for j in range(8)]]
+        rep.ob("tlsdesc-register", f"{tag}:local", not stray, f"no byte outside the 7-byte instruction changes ({stray})")
+
     # ---- templates ----------------------------------------------------------------------------------------
     for var, (start, tmpl, imm_idx) in O.TEMPLATES.items():
         try:
